@@ -1,51 +1,122 @@
 /-!
-# Model of `rs-matter/src/utils/storage/ringbuf.rs` — the real index arithmetic
+# Model of `rs-matter/src/utils/storage/ringbuf.rs` — the real index arithmetic, CHECKED
 
 `RingBuf<N>`: `buf: Vec<u8, N>` (length 0 until the first `push` resizes it to `N`), `start`, `end`,
-`non_empty`. The storage is a memory function `Nat → Nat` (only the indices `< N` matter);
-`copy_from_slice` into `buf[end .. end + len]` is a function update over that index range.
-Transliterated loop by loop: `push` (chunked copy, dropping the oldest bytes on overflow), `pop`
-(chunked copy out), `wrap`, `len`, `free`, `is_full`, `is_empty`, `clear`, `push_byte`, `pop_byte`.
+`non_empty`. The storage is the byte list `buf` (`buf.length` = `self.buf.len()`).
+Transliterated statement by statement: `push` (chunked copy, dropping the oldest bytes on overflow),
+`pop` (chunked copy out), `wrap`, `len`, `free`, `is_full`, `is_empty`, `clear`, `push_byte`,
+`pop_byte` — the BTP session (`RecvWindow`) uses `clear`, `free`, `push`, `pop`, `pop_byte`, `len`.
 
-The Rust `while` loops become recursion on a fuel argument that is large enough whenever `N > 0`
-(every iteration moves at least one byte); for `N = 0` the Rust `push` of a non-empty slice loops
-forever (`len = min(0 - 0, …) = 0`), the model stops when the fuel is used up.
+**Every place where the Rust can panic is an explicit outcome** (`RingFail.panic`, debug build =
+overflow checks on):
+
+* `a - b` on `usize` → `usub`: panic if `b > a` ("attempt to subtract with overflow");
+* `a + b`, `a += b` on `usize` → `uadd`: panic if the sum is `≥ 2^64` (`USIZE`);
+* `buf[i]` → `setIdx`: panic if `i ≥ buf.len()`;
+* `buf[a..b]` → `slice` / `checkRange`: panic if `a > b` or `b > len`;
+* `dst.copy_from_slice(src)` → `copyInto`: panic if the two lengths differ.
+
+There is no `%` or `/` in `ringbuf.rs` (wrap-around is the comparison `== buf.len()` in `wrap`).
+
+The Rust `while` loops become recursion on a fuel argument (`data.len() + 1` / `out_buf.len() + 1`)
+that cannot run out when `N > 0` (every iteration moves at least one byte — proved, see
+`Lemmas/BtpRing.lean`). For `N = 0` the Rust `push` of a non-empty slice does not terminate
+(`len = min(0 - 0, …) = 0`, nothing moves, no panic): the model answers `RingFail.hang`
+when the fuel is used up.
+
+At the end: the buffer calls that `RecvWindow` (btp/session.rs) makes on its
+`RingBuf<MAX_MESSAGE_SIZE>` — `accept_incoming` (`free()` test, `push` of the length prefix, `push` of
+the payload), `fetch_message` (`pop_byte` ×2, `pop`, `pop_byte` for the truncated rest), `reset`
+(`clear`) — transliterated on the checked ring (`Ring.acceptBuf`, `Ring.fetchBuf`, `Ring.bufRun`) and on
+the byte list the session model keeps (`qBufStep`, `qBufRun`).
 
 Import-free (the driver executable links this file).
 -/
 namespace Btp
 
+/-- `usize::MAX + 1` on the 64-bit targets the harness runs on. The theorems only use
+`2 * N ≤ USIZE` and "lengths of slices are `< USIZE`", never the number itself. -/
+def USIZE : Nat := 18446744073709551616
+
+inductive RingFail where
+  /-- a Rust panic (arithmetic overflow, index / slice range out of bounds, `copy_from_slice`
+  length mismatch) -/
+  | panic (why : String)
+  /-- the fuel of a loop ran out (the Rust loop does not terminate: only `push` with `N = 0`) -/
+  | hang
+deriving Repr, DecidableEq, Inhabited
+
+def RingFail.isPanic : RingFail → Bool
+  | .panic _ => true
+  | .hang => false
+
+abbrev RingM := Except RingFail
+
+/-- checked `a - b` on `usize` -/
+def usub (a b : Nat) (why : String) : RingM Nat :=
+  if b ≤ a then .ok (a - b) else .error (.panic why)
+
+/-- checked `a + b` on `usize` -/
+def uadd (a b : Nat) (why : String) : RingM Nat :=
+  if a + b < USIZE then .ok (a + b) else .error (.panic why)
+
+/-- the range check of `s[a..b]` on a slice of length `len` -/
+def checkRange (a b len : Nat) (why : String) : RingM Unit :=
+  if a ≤ b ∧ b ≤ len then .ok () else .error (.panic why)
+
+/-- `&s[a..b]` -/
+def slice (s : List Nat) (a b : Nat) (why : String) : RingM (List Nat) :=
+  if a ≤ b ∧ b ≤ s.length then .ok ((s.drop a).take (b - a)) else .error (.panic why)
+
+/-- `dst[a..b].copy_from_slice(src)`: the range check of the destination, then the length check of
+`copy_from_slice` -/
+def copyInto (dst : List Nat) (a b : Nat) (src : List Nat) (why : String) : RingM (List Nat) :=
+  if ¬ (a ≤ b ∧ b ≤ dst.length) then .error (.panic why)
+  else if src.length ≠ b - a then .error (.panic (why ++ ": copy_from_slice length mismatch"))
+  else .ok (dst.take a ++ src ++ dst.drop b)
+
+/-- `buf[i] = v` -/
+def setIdx (buf : List Nat) (i v : Nat) (why : String) : RingM (List Nat) :=
+  if i < buf.length then .ok (buf.set i v) else .error (.panic why)
+
 structure Ring where
   /-- the const generic `N` -/
   n : Nat
-  /-- `buf.len() == N` (after the first push) rather than `0` -/
-  alloc : Bool := false
-  mem : Nat → Nat := fun _ => 0
+  /-- `buf: Vec<u8, N>`; `buf.length` is `self.buf.len()`: `0` until the first push, then `N` -/
+  buf : List Nat := []
   start : Nat := 0
   end_ : Nat := 0
   nonEmpty : Bool := false
+deriving Repr, DecidableEq
 
 namespace Ring
 
 /-- `RingBuf::new()` -/
 def new (n : Nat) : Ring := { n := n }
 
-/-- `self.buf.len()` -/
-def bufLen (r : Ring) : Nat := if r.alloc then r.n else 0
+/-- `unwrap!(self.buf.resize_default(N))`: extend with zeroes up to `N` (or truncate to `N`); the
+`unwrap!` cannot fail because `new_len = N` is the capacity of the `Vec<u8, N>` -/
+def resize (r : Ring) : Ring :=
+  { r with buf := if r.buf.length < r.n then r.buf ++ List.replicate (r.n - r.buf.length) 0
+                  else r.buf.take r.n }
 
 /-- `RingBuf::wrap` -/
 def wrap (r : Ring) : Ring :=
-  { r with start := if r.start = r.bufLen then 0 else r.start,
-           end_ := if r.end_ = r.bufLen then 0 else r.end_ }
+  { r with start := if r.start = r.buf.length then 0 else r.start,
+           end_ := if r.end_ = r.buf.length then 0 else r.end_ }
 
-/-- `RingBuf::len` -/
-def len (r : Ring) : Nat :=
-  if !r.nonEmpty then 0
-  else if r.start < r.end_ then r.end_ - r.start
-  else r.bufLen + r.end_ - r.start
+/-- `RingBuf::len`: `0` / `self.end - self.start` / `self.buf.len() + self.end - self.start` -/
+def len (r : Ring) : RingM Nat :=
+  if !r.nonEmpty then .ok 0
+  else if r.start < r.end_ then usub r.end_ r.start "len: end - start"
+  else do
+    let t ← uadd r.buf.length r.end_ "len: buf.len() + end"
+    usub t r.start "len: buf.len() + end - start"
 
 /-- `RingBuf::free` (`N - self.len()`) -/
-def free (r : Ring) : Nat := r.n - r.len
+def free (r : Ring) : RingM Nat := do
+  let l ← r.len
+  usub r.n l "free: N - len()"
 
 /-- `RingBuf::is_full` -/
 def isFull (r : Ring) : Bool := r.start == r.end_ && r.nonEmpty
@@ -56,60 +127,104 @@ def isEmpty (r : Ring) : Bool := !r.nonEmpty
 /-- `RingBuf::clear` -/
 def clear (r : Ring) : Ring := { r with start := 0, end_ := 0, nonEmpty := false }
 
-/-- one iteration of the `while offset < data.len()` loop of `push`: copy the chunk `ch` (of
-`len = min(buf.len() - end, data.len() - offset)` bytes) to `buf[end .. end + len]`, drop the oldest
-bytes if they were overwritten, advance `end`, wrap -/
-def pushChunk (r : Ring) (ch : List Nat) : Ring :=
-  let len := ch.length
-  let mem' : Nat → Nat := fun i => if r.end_ ≤ i ∧ i < r.end_ + len then ch.getD (i - r.end_) 0 else r.mem i
-  let start' := if r.nonEmpty && decide (r.start ≥ r.end_) && decide (r.start < r.end_ + len) then r.end_ + len else r.start
-  { (wrap { r with mem := mem', start := start', end_ := r.end_ + len }) with nonEmpty := true }
+/-- one iteration of the `while offset < data.len()` loop of `push`; returns the ring and the new
+`offset`. (`self.end + len` is evaluated three times in the Rust — slice bound, overflow test,
+`+=` — with the same operands: checked once here.) -/
+def pushIter (r : Ring) (data : List Nat) (offset : Nat) : RingM (Ring × Nat) := do
+  -- let len = min(self.buf.len() - self.end, data.len() - offset);
+  let a ← usub r.buf.length r.end_ "push: buf.len() - end"
+  let b ← usub data.length offset "push: data.len() - offset"
+  let len := min a b
+  -- self.buf[self.end..self.end + len].copy_from_slice(&data[offset..offset + len]);
+  let e2 ← uadd r.end_ len "push: end + len"
+  let o2 ← uadd offset len "push: offset + len"
+  let src ← slice data offset o2 "push: data[offset..offset + len]"
+  let buf2 ← copyInto r.buf r.end_ e2 src "push: buf[end..end + len]"
+  -- offset += len;   (= o2)
+  -- if self.non_empty && self.start >= self.end && self.start < self.end + len { self.start = self.end + len; }
+  let start2 := if r.nonEmpty && decide (r.start ≥ r.end_) && decide (r.start < e2) then e2 else r.start
+  -- self.end += len; self.wrap(); self.non_empty = true;
+  .ok ({ (wrap { r with buf := buf2, start := start2, end_ := e2 }) with nonEmpty := true }, o2)
 
-/-- the loop of `push` on the not yet copied part `d` of the data -/
-def pushLoop : Nat → Ring → List Nat → Ring
-  | 0, r, _ => r
-  | fuel + 1, r, d =>
-    if d.length = 0 then r
-    else
-      let len := min (r.bufLen - r.end_) d.length
-      pushLoop fuel (r.pushChunk (d.take len)) (d.drop len)
+/-- the loop of `push` -/
+def pushLoop : Nat → Ring → List Nat → Nat → RingM Ring
+  | 0, r, data, offset => if offset < data.length then .error .hang else .ok r
+  | fuel + 1, r, data, offset =>
+    if offset < data.length then
+      match r.pushIter data offset with
+      | .error e => .error e
+      | .ok (r2, o2) => pushLoop fuel r2 data o2
+    else .ok r
 
-/-- `RingBuf::push` (returns the new ring; the Rust returns `self.len()` of it) -/
-def push (r : Ring) (d : List Nat) : Ring := pushLoop d.length { r with alloc := true } d
+/-- `RingBuf::push`: the new ring and the returned `self.len()` -/
+def push (r : Ring) (d : List Nat) : RingM (Ring × Nat) :=
+  match pushLoop (d.length + 1) r.resize d 0 with
+  | .error e => .error e
+  | .ok r2 =>
+    match r2.len with
+    | .error e => .error e
+    | .ok l => .ok (r2, l)
 
-/-- `RingBuf::push_byte` -/
-def pushByte (r : Ring) (b : Nat) : Ring :=
-  let r0 : Ring := { r with alloc := true }
-  let mem' : Nat → Nat := fun i => if i = r0.end_ then b else r0.mem i
-  let start' := if r0.nonEmpty && r0.start == r0.end_ then r0.end_ + 1 else r0.start
-  { (wrap { r0 with mem := mem', start := start', end_ := r0.end_ + 1 }) with nonEmpty := true }
+/-- `RingBuf::push_byte`: the new ring and the returned `self.len()` -/
+def pushByte (r : Ring) (b : Nat) : RingM (Ring × Nat) :=
+  let r0 := r.resize
+  -- self.buf[self.end] = data;
+  match setIdx r0.buf r0.end_ b "push_byte: buf[end]" with
+  | .error e => .error e
+  | .ok buf2 =>
+    -- if self.non_empty && self.start == self.end { self.start = self.end + 1; }
+    match (if r0.nonEmpty && r0.start == r0.end_ then uadd r0.end_ 1 "push_byte: end + 1" else .ok r0.start) with
+    | .error e => .error e
+    | .ok start2 =>
+      -- self.end += 1;
+      match uadd r0.end_ 1 "push_byte: end += 1" with
+      | .error e => .error e
+      | .ok e2 =>
+        let r2 : Ring := { (wrap { r0 with buf := buf2, start := start2, end_ := e2 }) with nonEmpty := true }
+        match r2.len with
+        | .error e => .error e
+        | .ok l => .ok (r2, l)
 
-/-- one iteration of the `while offset < out_buf.len() && self.non_empty` loop of `pop` for a
-remaining demand of `want > 0` bytes: the bytes copied out and the new ring -/
-def popChunk (r : Ring) (want : Nat) : Ring × List Nat :=
-  let len := min ((if r.start < r.end_ then r.end_ else r.bufLen) - r.start) want
-  let out := (List.range len).map (fun i => r.mem (r.start + i))
-  let r1 := wrap { r with start := r.start + len }
-  ({ r1 with nonEmpty := if r1.start = r1.end_ then false else r1.nonEmpty }, out)
+/-- one iteration of the `while offset < out_buf.len() && self.non_empty` loop of `pop` with
+`out_buf.len() = k`: the new ring, the bytes copied to `out_buf[offset..offset + len]`, the new
+`offset` -/
+def popIter (r : Ring) (k offset : Nat) : RingM (Ring × List Nat × Nat) := do
+  -- let len = min(if self.start < self.end { self.end } else { self.buf.len() } - self.start, out_buf.len() - offset);
+  let a ← usub (if r.start < r.end_ then r.end_ else r.buf.length) r.start "pop: (end | buf.len()) - start"
+  let b ← usub k offset "pop: out_buf.len() - offset"
+  let len := min a b
+  -- out_buf[offset..offset + len].copy_from_slice(&self.buf[self.start..self.start + len]);
+  let o2 ← uadd offset len "pop: offset + len"
+  checkRange offset o2 k "pop: out_buf[offset..offset + len]"
+  let s2 ← uadd r.start len "pop: start + len"
+  let src ← slice r.buf r.start s2 "pop: buf[start..start + len]"
+  if src.length ≠ o2 - offset then .error (.panic "pop: copy_from_slice length mismatch")
+  else
+    -- self.start += len; self.wrap(); if self.start == self.end { self.non_empty = false }
+    let r1 := wrap { r with start := s2 }
+    -- offset += len;   (= o2)
+    .ok ({ r1 with nonEmpty := if r1.start = r1.end_ then false else r1.nonEmpty }, src, o2)
 
-/-- the loop of `pop`: `want` bytes still demanded, `acc` already copied -/
-def popLoop : Nat → Ring → Nat → List Nat → Ring × List Nat
-  | 0, r, _, acc => (r, acc)
-  | fuel + 1, r, want, acc =>
-    if want = 0 || !r.nonEmpty then (r, acc)
-    else
-      let (r', out) := r.popChunk want
-      popLoop fuel r' (want - out.length) (acc ++ out)
+/-- the loop of `pop`: `acc` = `out_buf[..offset]` -/
+def popLoop : Nat → Ring → Nat → Nat → List Nat → RingM (Ring × List Nat)
+  | 0, r, k, offset, acc => if offset < k && r.nonEmpty then .error .hang else .ok (r, acc)
+  | fuel + 1, r, k, offset, acc =>
+    if offset < k && r.nonEmpty then
+      match r.popIter k offset with
+      | .error e => .error e
+      | .ok (r2, out, o2) => popLoop fuel r2 k o2 (acc ++ out)
+    else .ok (r, acc)
 
 /-- `RingBuf::pop(out_buf)` with `out_buf.len() = k`: the new ring and the bytes copied
 (the Rust returns their number) -/
-def pop (r : Ring) (k : Nat) : Ring × List Nat := popLoop k r k []
+def pop (r : Ring) (k : Nat) : RingM (Ring × List Nat) := popLoop (k + 1) r k 0 []
 
-/-- `RingBuf::pop_byte` -/
-def popByte (r : Ring) : Ring × Option Nat :=
+/-- `RingBuf::pop_byte`: `pop` into a one-byte buffer -/
+def popByte (r : Ring) : RingM (Ring × Option Nat) :=
   match r.pop 1 with
-  | (r', [b]) => (r', some b)
-  | (r', _) => (r', none)
+  | .error e => .error e
+  | .ok (r2, [b]) => .ok (r2, some b)
+  | .ok (r2, _) => .ok (r2, none)
 
 end Ring
 
@@ -128,6 +243,7 @@ inductive RingOp where
   | pushByte (b : Nat)
   | popByte
   | clear
+deriving Repr, DecidableEq
 
 /-- what the user observes: bytes handed out, then `len`, `free`, `is_full`, `is_empty` -/
 structure RingObs where
@@ -138,21 +254,31 @@ structure RingObs where
   empty : Bool
 deriving DecidableEq, Repr
 
-def Ring.obs (r : Ring) (out : List Nat) : RingObs :=
-  { out := out, len := r.len, free := r.free, full := r.isFull, empty := r.isEmpty }
+/-- the observation after an operation: calls `len()` and `free()` (both checked) -/
+def Ring.obs (r : Ring) (out : List Nat) : RingM RingObs := do
+  let l ← r.len
+  let f ← r.free
+  .ok { out := out, len := l, free := f, full := r.isFull, empty := r.isEmpty }
 
 def qObs (n : Nat) (q out : List Nat) : RingObs :=
   { out := out, len := q.length, free := n - q.length, full := q.length == n && n > 0, empty := q.isEmpty }
 
-def Ring.step (r : Ring) : RingOp → Ring × RingObs
-  | .push d => let r' := r.push d; (r', r'.obs [])
-  | .pop k => let (r', o) := r.pop k; (r', r'.obs o)
-  | .pushByte b => let r' := r.pushByte b; (r', r'.obs [])
-  | .popByte =>
-    match r.popByte with
-    | (r', some b) => (r', r'.obs [b])
-    | (r', none) => (r', r'.obs [])
-  | .clear => let r' := r.clear; (r', r'.obs [])
+/-- the ring after an operation and the bytes it handed out -/
+def Ring.apply (r : Ring) : RingOp → RingM (Ring × List Nat)
+  | .push d => do let (r2, _) ← r.push d; .ok (r2, [])
+  | .pop k => r.pop k
+  | .pushByte b => do let (r2, _) ← r.pushByte b; .ok (r2, [])
+  | .popByte => do
+    let (r2, o) ← r.popByte
+    .ok (r2, match o with | some b => [b] | none => [])
+  | .clear => .ok (r.clear, [])
+
+/-- one operation and what the user then observes; `error` = the operation (or the following
+`len()` / `free()`) panicked or hangs -/
+def Ring.step (r : Ring) (op : RingOp) : RingM (Ring × RingObs) := do
+  let (r2, out) ← r.apply op
+  let o ← r2.obs out
+  .ok (r2, o)
 
 def qStep (n : Nat) (q : List Nat) : RingOp → List Nat × RingObs
   | .push d => let q' := qPush n q d; (q', qObs n q' [])
@@ -160,5 +286,161 @@ def qStep (n : Nat) (q : List Nat) : RingOp → List Nat × RingObs
   | .pushByte b => let q' := qPush n q [b]; (q', qObs n q' [])
   | .popByte => let (q', o) := qPop q 1; (q', qObs n q' o)
   | .clear => ([], qObs n [] [])
+
+/-- run a list of operations, collecting what the user observes; stops with the failure at the
+first operation that panics / hangs -/
+def Ring.run (r : Ring) : List RingOp → RingM (List RingObs)
+  | [] => .ok []
+  | op :: ops =>
+    match r.step op with
+    | .error e => .error e
+    | .ok (r2, o) =>
+      match Ring.run r2 ops with
+      | .error e => .error e
+      | .ok os => .ok (o :: os)
+
+def Ring.qRun (n : Nat) (q : List Nat) : List RingOp → List RingObs
+  | [] => []
+  | op :: ops => (qStep n q op).2 :: Ring.qRun n (qStep n q op).1 ops
+
+/-! ## The buffer calls of the BTP receive window, run on the checked ring -/
+
+/-- what `RecvWindow` (session.rs) does with its `buf: RingBuf<MAX_MESSAGE_SIZE>` -/
+inductive BufOp where
+  /-- `accept_incoming`, session.rs:300-310: `if self.buf.free() < prefix_len + payload.len() { Err }`,
+  `if let Some(msg_len) = sdu_len_prefix { self.buf.push(&u16::to_le_bytes(msg_len)) }`,
+  `self.buf.push(payload)` -/
+  | accept (pfx : Option (List Nat)) (payload : List Nat)
+  /-- `fetch_message(buf)` with `buf.len() = cap`, session.rs:417-436: two `pop_byte()` (the length
+  prefix), `pop(&mut buf[..min(len, cap)])`, then `pop_byte()` for the truncated rest -/
+  | fetch (cap : Nat)
+  /-- `reset`: `self.buf.clear()` -/
+  | reset
+deriving Repr, DecidableEq
+
+inductive BufOut where
+  | refused
+  | accepted
+  | fetched (bytes : List Nat)
+  | cleared
+deriving Repr, DecidableEq
+
+namespace Ring
+
+/-- `for _ in pop_len..len { if self.buf.pop_byte().is_none() { Err(Invalid)? } }`: `m` iterations;
+`none` = the `Err(Invalid)` return -/
+def drain : Nat → Ring → RingM (Option Ring)
+  | 0, r => .ok (some r)
+  | m + 1, r =>
+    match r.popByte with
+    | .error e => .error e
+    | .ok (_, none) => .ok none
+    | .ok (r2, some _) => drain m r2
+
+/-- `if let Some(msg_len) = sdu_len_prefix { self.buf.push(&u16::to_le_bytes(msg_len)); }` -/
+def pushPfx (r : Ring) : Option (List Nat) → RingM Ring
+  | none => .ok r
+  | some p =>
+    match r.push p with
+    | .error e => .error e
+    | .ok (r1, _) => .ok r1
+
+/-- the buffer calls of `RecvWindow::accept_incoming`; `none` = refused (ring untouched).
+The Rust's `prefix_len + payload.len()` (`usize +`) is the plain `Nat` `+` here, not `uadd`: the
+prefix is 0 or 2 bytes and a Rust slice is at most `isize::MAX = 2^63 - 1` bytes long, so the sum
+cannot reach `USIZE = 2^64` (`BufOp.Wf` only says `payload.length < USIZE`; for lengths between
+`2^64 - 2` and `2^64`, which no slice has, the model answers "refused" where the arithmetic would
+overflow). `USIZE` is fixed at `2^64`: 32-bit targets (`usize = u32`) are not covered by the
+no-panic theorems of the ring (the BTP capacities, `2 * 3166`, are far below `2^32` too, but the
+theorems are not stated for that limit). -/
+def acceptBuf (r : Ring) (pfx : Option (List Nat)) (payload : List Nat) : RingM (Option Ring) :=
+  match r.free with
+  | .error e => .error e
+  | .ok f =>
+    if f < (pfx.getD []).length + payload.length then .ok none
+    else
+      match r.pushPfx pfx with
+      | .error e => .error e
+      | .ok r1 =>
+        match r1.push payload with
+        | .error e => .error e
+        | .ok (r2, _) => .ok (some r2)
+
+/-- the buffer calls of `RecvWindow::fetch_message`; `none` = an `Err(Invalid)` return (the bytes
+popped so far are then gone: the Rust mutates before it fails) -/
+def fetchBuf (r : Ring) (cap : Nat) : RingM (Option (Ring × List Nat)) :=
+  match r.popByte with
+  | .error e => .error e
+  | .ok (_, none) => .ok none
+  | .ok (r1, some lo) =>
+    match r1.popByte with
+    | .error e => .error e
+    | .ok (_, none) => .ok none
+    | .ok (r2, some hi) =>
+      match r2.pop (min (lo + 256 * hi) cap) with
+      | .error e => .error e
+      | .ok (r3, out) =>
+        if out.length ≠ min (lo + 256 * hi) cap then .ok none
+        else
+          match drain (lo + 256 * hi - min (lo + 256 * hi) cap) r3 with
+          | .error e => .error e
+          | .ok none => .ok none
+          | .ok (some r4) => .ok (some (r4, out))
+
+def bufStep (r : Ring) : BufOp → RingM (Option (Ring × BufOut))
+  | .accept pfx payload =>
+    match r.acceptBuf pfx payload with
+    | .error e => .error e
+    | .ok none => .ok (some (r, .refused))
+    | .ok (some r2) => .ok (some (r2, .accepted))
+  | .fetch cap =>
+    match r.fetchBuf cap with
+    | .error e => .error e
+    | .ok none => .ok none
+    | .ok (some (r2, out)) => .ok (some (r2, .fetched out))
+  | .reset => .ok (some (r.clear, .cleared))
+
+/-- run the receive window's buffer calls on the ring; `.ok none` = a `fetch_message` returned
+`Err(Invalid)` (run stopped); `.error` = panic / hang -/
+def bufRun (r : Ring) : List BufOp → RingM (Option (List BufOut))
+  | [] => .ok (some [])
+  | op :: ops =>
+    match r.bufStep op with
+    | .error e => .error e
+    | .ok none => .ok none
+    | .ok (some (r2, o)) =>
+      match bufRun r2 ops with
+      | .error e => .error e
+      | .ok none => .ok none
+      | .ok (some os) => .ok (some (o :: os))
+
+end Ring
+
+/-- the same on the byte list of the session model (`Model/Btp.lean`: `ringFree`, `ringPush`,
+`RecvWindow.fetchMessage`'s `lo :: hi :: rest` / `rest.take` / `rest.drop`), capacity `n`;
+`none` = `fetch` on a list that does not start with a complete length-prefixed message
+(`.error .invalid` in `Model/Btp.lean`) -/
+def qBufStep (n : Nat) (q : List Nat) : BufOp → Option (List Nat × BufOut)
+  | .accept pfx payload =>
+    if n - q.length < (pfx.getD []).length + payload.length then some (q, .refused)
+    else some (qPush n (qPush n q (pfx.getD [])) payload, .accepted)
+  | .fetch cap =>
+    match q with
+    | lo :: hi :: rest =>
+      if lo + 256 * hi ≤ rest.length then
+        some (rest.drop (lo + 256 * hi), .fetched (rest.take (min (lo + 256 * hi) cap)))
+      else none
+    | _ => none
+  | .reset => some ([], .cleared)
+
+def qBufRun (n : Nat) (q : List Nat) : List BufOp → Option (List BufOut)
+  | [] => some []
+  | op :: ops =>
+    match qBufStep n q op with
+    | none => none
+    | some (q2, o) =>
+      match qBufRun n q2 ops with
+      | none => none
+      | some os => some (o :: os)
 
 end Btp
